@@ -7,7 +7,11 @@ namespace Kurbo
 open Ops
 variable {K : Type} [Scalar K]
 
-/-- `PathSeg::tangents` (robust end-point tangents; `EPS = 1e-12` on squared lengths) -/
+/-- `v == Vec2::ZERO` (derived `PartialEq`: both components compare equal to `0.0`; for binary64 `-0.0 == 0.0`, NaN is unequal) -/
+def Vec2.isZero (v : Vec2 K) : Bool := (v.x ==. (0 : K)) && (v.y ==. (0 : K))
+
+/-- `PathSeg::tangents` (robust end-point tangents; `EPS = 1e-12` on squared lengths).  When the end points coincide (`closed`, resp.
+    `d03 == Vec2::ZERO`) the chord has no direction and the control arm, however short, is returned. -/
 def PathSeg.tangents (s : PathSeg K) : Vec2 K × Vec2 K :=
   let eps : K := Scalar.ofRat (1/1000000000000)
   match s with
@@ -16,19 +20,29 @@ def PathSeg.tangents (s : PathSeg K) : Vec2 K × Vec2 K :=
     (d, d)
   | .Quad q =>
     let d01 := q.p1 - q.p0
-    let d0 := if eps <. d01.hypot2 then d01 else q.p2 - q.p0
     let d12 := q.p2 - q.p1
-    let d1 := if eps <. d12.hypot2 then d12 else q.p2 - q.p0
+    let d02 := q.p2 - q.p0
+    let closed := d02.isZero
+    let d0 := if eps <. d01.hypot2 || closed then d01 else d02
+    let d1 := if eps <. d12.hypot2 || closed then d12 else d02
     (d0, d1)
   | .Cubic c =>
     let d01 := c.p1 - c.p0
     let d0 := if eps <. d01.hypot2 then d01 else
       let d02 := c.p2 - c.p0
-      if eps <. d02.hypot2 then d02 else c.p3 - c.p0
+      let d03 := c.p3 - c.p0
+      if eps <. d02.hypot2 then d02
+      else if !d03.isZero then d03
+      else if !d01.isZero then d01
+      else d02
     let d23 := c.p3 - c.p2
     let d1 := if eps <. d23.hypot2 then d23 else
       let d13 := c.p3 - c.p1
-      if eps <. d13.hypot2 then d13 else c.p3 - c.p0
+      let d03 := c.p3 - c.p0
+      if eps <. d13.hypot2 then d13
+      else if !d03.isZero then d03
+      else if !d23.isZero then d23
+      else d13
     (d0, d1)
 
 /-- `SimplifyState` -/
